@@ -98,7 +98,12 @@ def run_config(items, env):
             exec(src, globs[lvl])  # pylint: disable=exec-used
             if lvl + 1 < DEPTH:
                 globs[lvl + 1][f"level{lvl}"] = globs[lvl][f"level{lvl}"]
-        formula = "y ~ 0 + " + " + ".join(formula_piece(r, n) for r, n, _ in items)
+        pieces = []
+        for r, n, sub in items:
+            pieces.append(formula_piece(r, n))
+            if r not in ("arg", "bq", "bq_space") and "data" in sub:
+                pieces.append(n if " " not in n else f"`{n}`")  # the column itself, so that it is part of the frame the call sees
+        formula = "y ~ 0 + " + " + ".join(pieces)
         try:
             with core.Guard():
                 dm = globs[DEPTH - 1][f"level{DEPTH - 1}"](formula, data, env, extra, localvals)
@@ -112,7 +117,7 @@ def run_config(items, env):
 
 
 def expected(role, subset, env):
-    order = [s for s in SCOPES if s in subset]
+    order = [s for s in SCOPES if s in subset and not (s == "data" and role not in ("arg", "bq", "bq_space"))]
     if not order:
         return None
     first = order[0]
@@ -122,8 +127,56 @@ def expected(role, subset, env):
     return (np.arange(N, dtype=float) + 1) * (v + {"dotted2": 0.5, "dotted3": 0.25}.get(role, 0.0))
 
 
+SHADOWED = {"I": "y ~ 0 + I(x)", "offset": "y ~ 0 + offset(x)", "scale": "y ~ 0 + scale(x)", "center": "y ~ 0 + center(x)", "C": "y ~ 0 + C(k)"}
+
+
+def judge_shadow(ctx, case):
+    """A user object named like a built-in never wins over the built-in: neither when the design is built nor when new
+    data are evaluated."""
+    from formulae import design_matrices
+
+    name, subset = case["name"], case["subset"]
+    ctx.count(core.canon(case), True, ["shadow:" + name], stratum="shadow")
+    data = pd.DataFrame({"y": np.arange(N, dtype=float), "x": np.arange(N, dtype=float) + 1, "k": [1, 2, 1, 2, 1]})
+    new = pd.DataFrame({"x": [10.0, 20.0, 40.0], "k": [2, 1, 2]})
+
+    def user(*a, **k):  # what a shadowing user function would return: visibly not the built-in's result
+        return np.asarray(a[0], dtype=float) * 0 - 99.0
+
+    g = {"design_matrices": design_matrices, "np": np}
+    extra = {}
+    lines = "pass"
+    if "globals" in subset:
+        g[name] = user
+    if "extra" in subset:
+        extra[name] = user
+    if "locals" in subset:
+        lines = f"{name} = shadow"
+    exec(f"def caller(formula, data, extra, shadow):\n    {lines}\n    return design_matrices(formula, data, extra_namespace=extra)\n", g)  # pylint: disable=exec-used
+    formula = SHADOWED[name]
+    ref_g = {"design_matrices": design_matrices}
+    exec("def caller(formula, data):\n    return design_matrices(formula, data)\n", ref_g)  # pylint: disable=exec-used
+    try:
+        with core.Guard():
+            want = ref_g["caller"](formula, data)
+            want_new = np.asarray(want.common.evaluate_new_data(new).design_matrix, dtype=float)
+            got = g["caller"](formula, data, extra, user)
+            got_train = np.asarray(got.common.design_matrix, dtype=float)
+            got_new = np.asarray(got.common.evaluate_new_data(new).design_matrix, dtype=float)
+    except Exception as e:  # pylint: disable=broad-except
+        ctx.fail("shadow", case, f"{formula!r} with a user object named {name} in {subset} raised {type(e).__name__}: {e}", core.exc_key(e))
+        return
+    if not np.array_equal(got_train, np.asarray(want.common.design_matrix, dtype=float)):
+        ctx.fail("shadow", case, f"{formula!r}: a user object named {name} in {subset} changed the design (built-ins come first)", "training")
+    if got_new.shape != want_new.shape or not np.array_equal(got_new, want_new):
+        ctx.fail("shadow", case, f"{formula!r}: a user object named {name} in {subset} changed the evaluation of new data (built-ins come first)", "new_data")
+
+
 def judge(ctx, case):
     if ctx.skip():
+        return
+    if case.get("kind") == "shadow":
+        judge_shadow(ctx, case)
         return
     items = [(r, n, tuple(s)) for r, n, s in case["items"]]
     env = case["env"]
@@ -147,10 +200,14 @@ def judge(ctx, case):
     if isinstance(got, Exception):
         ctx.fail("resolution", full, f"{formula!r} env={env} scopes {[s for _, _, s in items]} raised {type(got).__name__}: {got}", "raises:" + core.exc_key(got))
         return
-    if got.shape != (N, len(items)):
+    extra_cols = sum(1 for r, _, sub in items if r not in ("arg", "bq", "bq_space") and "data" in sub)
+    if got.shape != (N, len(items) + extra_cols):
         ctx.fail("resolution", full, f"{formula!r}: matrix has shape {got.shape}", "shape")
         return
-    for j, ((role, name, subset), want) in enumerate(zip(items, wants)):
+    col = 0
+    for (role, name, subset), want in zip(items, wants):
+        j = col
+        col += 2 if (role not in ("arg", "bq", "bq_space") and "data" in subset) else 1
         if not np.allclose(got[:, j], want):
             def owner(v):
                 for s in SCOPES:
@@ -159,7 +216,7 @@ def judge(ctx, case):
                             return f"{s}" + (f"(level {lvl})" if s in ("locals", "globals") else "")
                 return "?"
             seen = got[0, j] if role in ("arg", "bq", "bq_space") else got[0, j] / 1.0
-            first = [s for s in SCOPES if s in subset][0]
+            first = [s for s in SCOPES if s in subset and not (s == "data" and role not in ("arg", "bq", "bq_space"))][0]
             ctx.fail("resolution", full, f"{formula!r} env={env}: {name} as {role} is defined in {list(subset)}; resolved to {owner(seen)}, "
                      f"expected {first}" + (f"(level {env})" if first in ("locals", "globals") else ""), f"{role}:{first}->{owner(seen).split('(')[0]}")
 
@@ -180,6 +237,9 @@ def enum_cases():
         for subset in _subsets(["builtin", "locals", "globals", "extra"]):
             for role in ("callee", "dotted1", "dotted2", "dotted3"):
                 yield {"items": [[role, "zeta", list(subset)]], "env": env}
+                if env == 0 and subset:
+                    # a data column with the same name as the function: the data frame is not a scope for callees
+                    yield {"items": [[role, "zeta", ["data"] + list(subset)]], "env": env}
         for subset in _subsets(["data", "builtin", "globals", "extra"]):
             yield {"items": [["bq_space", "my zeta", list(subset)]], "env": env}
     # callee names that happen to be Python builtins: they are not a scope
@@ -187,6 +247,10 @@ def enum_cases():
         for subset in _subsets(["builtin", "locals", "globals", "extra"]):
             yield {"items": [["callee", name, list(subset)]], "env": 0}
         yield {"items": [["dotted1", name, []]], "env": 1}
+    for name in SHADOWED:
+        for subset in _subsets(["locals", "globals", "extra"]):
+            if subset:
+                yield {"kind": "shadow", "name": name, "subset": list(subset)}
     for env in (50, 1000):
         yield {"items": [["arg", "zeta", ["extra"]]], "env": env}
         yield {"items": [["callee", "zeta", ["globals", "extra"]]], "env": env}
